@@ -72,6 +72,57 @@ def _canary_one(args):
                 by=bad[:3] or ([r.error[:80]] if r.error else []))
 
 
+def _child(fn, arg, conn):
+    try:
+        conn.send(fn(arg))
+    except BaseException as ex:      # pragma: no cover
+        try:
+            conn.send(dict(__error__='%s: %s' % (type(ex).__name__, ex)))
+        except Exception:
+            pass
+    finally:
+        conn.close()
+
+
+def _run_jobs(fn, jobs, nproc, limit_s, lost):
+    """run fn(job) for every job, each in its own forked process, at most nproc at a time; results in job order"""
+    ctx = mp.get_context('fork')
+    out = [None] * len(jobs)
+    pending = list(range(len(jobs)))
+    running = {}                      # index -> (process, parent connection, start time)
+    while pending or running:
+        while pending and len(running) < nproc:
+            k = pending.pop(0)
+            pc, cc = ctx.Pipe(duplex=False)
+            p = ctx.Process(target=_child, args=(fn, jobs[k], cc))
+            p.start()
+            cc.close()
+            running[k] = (p, pc, time.time())
+        time.sleep(0.05)
+        for k in list(running):
+            p, pc, t0 = running[k]
+            if pc.poll():
+                try:
+                    r = pc.recv()
+                except EOFError:
+                    r = None
+                p.join(5)
+                if isinstance(r, dict) and '__error__' in r:
+                    r = lost(jobs[k], 'the engine process failed: ' + r['__error__'])
+                out[k] = r if r is not None else lost(jobs[k], 'the engine process died (exit code %s)' % p.exitcode)
+                del running[k]
+            elif not p.is_alive():
+                p.join(1)
+                out[k] = lost(jobs[k], 'the engine process died (exit code %s): a crash of the solver, not a verdict' % p.exitcode)
+                del running[k]
+            elif time.time() - t0 > limit_s:
+                p.terminate()
+                p.join(5)
+                out[k] = lost(jobs[k], 'the engine did not return within %d s' % limit_s)
+                del running[k]
+    return out
+
+
 def load_known():
     path = os.path.join(ROOT, 'known_findings.jsonl')
     out = []
@@ -119,37 +170,27 @@ def run_check(modname, tier='quick', seed=0):
     nproc = min(16, max(1, len(jobs) + len(canary_jobs)))
     results, canaries = [], []
     if jobs or canary_jobs:
-        # every job has a wall-clock limit of its own: z3 can hang outside its timeouts (seen in Z3_solver_push on
-        # quantified string formulas); a job that does not come back is undecided, never a verdict
+        # every job runs in a process of its own with a wall-clock limit: z3 can hang outside its timeouts (seen in
+        # Z3_solver_push on quantified string formulas) and can crash (segmentation fault seen in check); a job that does not
+        # come back is undecided, never a verdict
         job_limit = int(os.environ.get('PYVC_JOB_LIMIT_S', '1500'))
-        pool = mp.get_context('fork').Pool(nproc)
-        try:
-            ars = [pool.apply_async(_verify_one, (j,)) for j in jobs]
-            crs = [pool.apply_async(_canary_one, (j,)) for j in canary_jobs]
-            t_start = time.time()
-            for j, a in zip(jobs, ars):
-                try:
-                    results.append(a.get(timeout=max(1, job_limit - (time.time() - t_start))))
-                except mp.TimeoutError:
-                    results.append(dict(function='%s[%s %d]' % (j[0], j[1], j[2]),
-                                        error='out-of-reach: the engine did not return within %d s' % job_limit,
-                                        obligation_list=[], obligations=0, discharged=0, failed=[], undecided=[], kind=j[1], idx=j[2],
-                                        wall_s=job_limit, solver_ms=0, paths=0))
-            for j, a in zip(canary_jobs, crs):
-                try:
-                    canaries.append(a.get(timeout=max(1, 2 * job_limit - (time.time() - t_start))))
-                except mp.TimeoutError:
-                    mod_ = importlib.import_module(j[0])
-                    c_ = mod_.CONTRACTS[j[1]]
-                    canaries.append(dict(function=c_.name, mutation='%s -> %s' % c_.canary[j[2]][:2], caught=False, by=['(no answer)']))
-        finally:
-            pool.terminate()
-            pool.join()
+
+        def lost(j, why):
+            return dict(function='%s[%s %d]' % (j[0], j[1], j[2]), error='out-of-reach: %s' % why,
+                        obligation_list=[], obligations=0, discharged=0, failed=[], undecided=[], kind=j[1], idx=j[2],
+                        wall_s=0, solver_ms=0, paths=0)
+
+        def lost_canary(j, why):
+            mod_ = importlib.import_module(j[0])
+            c_ = mod_.CONTRACTS[j[1]]
+            return dict(function=c_.name, mutation='%s -> %s' % tuple(c_.canary[j[2]][:2]), caught=False, by=['(%s)' % why])
+        results = _run_jobs(_verify_one, jobs, nproc, job_limit, lost)
+        canaries = _run_jobs(_canary_one, canary_jobs, nproc, job_limit, lost_canary)
     # an obligation that timed out while the pool was busy is tried again alone with four times the budget: verdicts must
     # not depend on machine load (a real failure stays unknown/sat and is then reported)
     for k, r in enumerate(results):
         if any(o['status'] == 'unknown' for o in r['obligation_list']) and not any(o['status'] == 'sat' for o in r['obligation_list']):
-            r2 = _verify_one((modname, r['kind'], r['idx'], timeout_ms * 4))
+            r2 = _run_jobs(_verify_one, [(modname, r['kind'], r['idx'], timeout_ms * 4)], 1, 2 * job_limit, lost)[0]
             r2['retried_alone'] = True
             if sum(o['status'] != 'unsat' for o in r2['obligation_list']) <= sum(o['status'] != 'unsat' for o in r['obligation_list']) \
                     and not r2.get('error'):
